@@ -22,17 +22,26 @@ pub fn set(input: Input<'_>) -> ParserResult<'_, ASN1Type> {
         preceded(
             skip_ws_and_comments(tag(SET)),
             pair(
-                in_braces((
-                    many0(terminated(
+                in_braces(|input| {
+                    let (input, root) = many0(terminated(
                         skip_ws_and_comments(sequence_component),
                         optional_comma,
-                    )),
-                    opt(terminated(extension_marker, opt(char(COMMA)))),
-                    opt(many0(terminated(
-                        skip_ws_and_comments(sequence_component),
-                        optional_comma,
-                    ))),
-                )),
+                    ))
+                    .parse(input)?;
+                    let (input, marker) =
+                        opt(terminated(extension_marker, opt(char(COMMA)))).parse(input)?;
+                    // Extension additions follow an extension marker only (see `sequence`).
+                    let (input, additions) = if marker.is_some() {
+                        many0(terminated(
+                            skip_ws_and_comments(sequence_component),
+                            optional_comma,
+                        ))
+                        .parse(input)?
+                    } else {
+                        (input, vec![])
+                    };
+                    Ok((input, (root, marker, Some(additions))))
+                }),
                 opt(constraints),
             ),
         ),
